@@ -181,6 +181,9 @@ class Position(object):
             "ply": self.ply + 1,
         }
 
+        if not self.in_bounds(m.x, m.y):
+            raise IllegalMove("move off the board")
+
         if m.type.is_slide():
             self._move_slide(m, delta)
         else:
@@ -224,6 +227,8 @@ class Position(object):
             raise IllegalMove("Illegal opening")
 
         stack = self[m.x, m.y]
+        if any(drop < 1 for drop in m.slides):
+            raise IllegalMove("must drop at least one stone per square")
         ndrop = sum(m.slides)
 
         if ndrop > self.size or len(stack) < ndrop:
